@@ -189,11 +189,16 @@ def run_source(env_name: str, src: str, datasets: list[dict[str, Any]], res: Sha
                         raise
                     except Exception as e:  # noqa: BLE001
                         out.append((_sig_exc(phase, e), {"phase": phase, "data_index": di}, f"{type(e).__name__}: {e}"))
-    except TimeBudget:
-        import re
-
-        # (a range literal piped into a filter is the recorded finding: the filter materialises the range outside every limit)
-        cls = ":source:range-literal-through-filter" if re.search(r"\(\s*[^()|]*\.\.[^()|]*\)\s*\|", src) else ""
+    except TimeBudget as tb_exc:
+        # where the time went: a range handed to a sequence filter is the recorded finding (the filter materialises the
+        # range outside every limit) - recognised by the frame the budget ran out in, not by the spelling of the source
+        cls = ""
+        tb = tb_exc.__traceback__
+        while tb is not None:
+            fr = tb.tb_frame
+            if fr.f_code.co_filename.endswith("liquid2/filter.py") and any(isinstance(v, range) and (v.stop - v.start) > 10**6 for v in fr.f_locals.values()):
+                cls = ":source:range-literal-through-filter"
+            tb = tb.tb_next
         out.append(("C02:cpu-budget-exceeded" + cls, {"phase": "any", "budget_s": budget}, f"did not finish within {budget} s"))
     if res is not None:
         if nontrivial:
